@@ -2,6 +2,7 @@
 import json, os, time, sys
 
 VERIF = os.path.dirname(os.path.dirname(os.path.abspath(__file__)))
+OUT = os.environ.get("VERIF_OUT_DIR") or VERIF      # selftest runs redirect evidence / violations
 
 
 def load_known_findings():
@@ -103,7 +104,7 @@ class Ctx:
                 lines.append("KNOWN-FINDING: property=%s %s [%s]" % (self.prop, known[k], o["key"]))
             else:
                 new.append(o)
-        vdir = os.path.join(VERIF, "violations")
+        vdir = os.path.join(OUT, "violations")
         os.makedirs(vdir, exist_ok=True)
         # remove stale files of this property
         for f in os.listdir(vdir):
@@ -144,8 +145,8 @@ class Ctx:
             "violations": len(new),
         }
         ev["coverage"].update(self.extra)
-        os.makedirs(os.path.join(VERIF, "evidence"), exist_ok=True)
-        with open(os.path.join(VERIF, "evidence", "%s.json" % self.prop), "w") as f:
+        os.makedirs(os.path.join(OUT, "evidence"), exist_ok=True)
+        with open(os.path.join(OUT, "evidence", "%s.json" % self.prop), "w") as f:
             json.dump(ev, f, indent=1, sort_keys=True)
         for l in lines:
             print(l)
